@@ -26,8 +26,21 @@ func (w *World) ApplyAPI(call string) error {
 		w.Mgr.ImportPcaps(files)
 	case "addtag":
 		name, def, _ := strings.Cut(arg, "=")
+		next := w.Mgr.VerifDump().NextStreamID
 		if err := w.Mgr.AddTag(name, "#fff", def); err != nil {
 			res = "error: " + err.Error()
+		} else if idl, ok := strings.CutPrefix(def, "id:"); ok && strings.HasPrefix(name, "mark/") {
+			for _, f := range strings.Split(idl, ",") {
+				if n, err := strconv.ParseUint(f, 10, 64); err == nil && n >= next {
+					if w.FutureMarks == nil {
+						w.FutureMarks = map[string]map[uint64]bool{}
+					}
+					if w.FutureMarks[name] == nil {
+						w.FutureMarks[name] = map[uint64]bool{}
+					}
+					w.FutureMarks[name][n] = true
+				}
+			}
 		}
 	case "updtag":
 		name, def, _ := strings.Cut(arg, "=")
